@@ -15,8 +15,15 @@ pub struct NetWorld {
 }
 
 fn free_port() -> std::io::Result<u16> {
-    let l = std::net::TcpListener::bind("127.0.0.1:0")?;
-    Ok(l.local_addr()?.port())
+    // the endpoint listens on the same TCP and UDP port
+    for _ in 0..50 {
+        let l = std::net::TcpListener::bind("127.0.0.1:0")?;
+        let port = l.local_addr()?.port();
+        if std::net::UdpSocket::bind(("127.0.0.1", port)).is_ok() {
+            return Ok(port);
+        }
+    }
+    Err(std::io::Error::new(std::io::ErrorKind::AddrInUse, "no port free for both TCP and UDP"))
 }
 
 impl NetWorld {
